@@ -25,6 +25,33 @@ def run(ctx):
     else:
         flds_ = {x_["name"] for x_ in H_.walk(hc_["body"]) if H_.kind(x_) == "Field" and H_.path_local(x_["e"]) == "self"}
         ctx.inst("C09.R1", "Commented::has_comments#both-fields", {"leading", "trailing"} <= flds_, "fields consulted: %s (a member whose only comment is the one that is not consulted is printed by the comment-dropping single-line layout)" % sorted(flds_), H_.loc(hc_["body"]))
+    # ---- R10 a do-block never fits on one line; lists and records share one grammar shape
+    ctx.rule("C09.R10", "the single-line printers render every do-block with line breaks (the formatter reads a line break in the single-line rendering as 'this needs the multi-line, comment-preserving layout'), and the list and record rules are one rule with the brackets and the item kind renamed (the two printers share their comment handling)", floor=3)
+    from rules import symprint as SP_
+    from lib import symstr as Y_
+    I_, pf_ = SP_.interp(core)
+    for name_, variant_, alts_, ren_, loc_ in SP_.arms_of(core, I_, pf_):
+        if variant_ != "DoBlock" or not (name_.endswith("::expr_to_source") or name_.endswith("::format_single_line") or name_.endswith("::expr_to_source_with_scope")):
+            continue
+        flat_ = [Y_.flatten(a_) for a_ in alts_]
+        unk_ = any(any(x_[0] == "unk" for x_ in f_) for f_ in flat_)
+        inline_ = [f_ for f_ in flat_ if not any(x_[0] == "nl" for x_ in f_) and not any(x_[0] == "unk" for x_ in f_)]
+        ctx.inst("C09.R10", "%s[DoBlock]#never-one-line" % name_.replace("blots_core::", ""), False if inline_ else (None if unk_ else True), "%d output path(s); paths without a line break: %d" % (len(flat_), len(inline_)), loc_)
+    import json as json_
+    if "list" in G.rules and "record" in G.rules:
+        ren2 = {"list_item": "record_item"}
+        lit2 = {"[": "{", "]": "}", "[]": "{}"}
+
+        def rn(e):
+            if isinstance(e, dict):
+                if e.get("k") == "ident" and e.get("v") in ren2:
+                    return dict(e, v=ren2[e["v"]])
+                if e.get("k") == "str" and e.get("v") in lit2:
+                    return dict(e, v=lit2[e["v"]])
+                return {k_: rn(v_) for k_, v_ in e.items()}
+            return e
+        same_ = json_.dumps(rn(G.expr("list")), sort_keys=True) == json_.dumps(G.expr("record"), sort_keys=True) and G.ty("list") == G.ty("record")
+        ctx.inst("C09.R10", "grammar#list==record", same_, "`list` is `record` with [ ] and list_item for { } and record_item: %s" % same_, "blots-core/src/grammar.pest")
     from rules import panics
     panics.comment_slots_accepted(ctx, "C09.R7", [core, cli, wasm], G)
     panics.comment_text_whole(ctx, "C09.R8", core)
